@@ -315,6 +315,25 @@ func dayLen(tz *time.Location, d day) time.Duration {
 	return b.Sub(a)
 }
 
+// a day counts as an offset-transition day when the zone's UTC offset is not constant from 3 hours before its
+// local midnight to 27 hours after it (sampled every minute), or when time.Date's midnight for it falls on
+// another local date (a skipped midnight).  On such days the local calendar day is not the 24 hours after local
+// midnight — it may be 23/25 hours long or, when clocks are set back across midnight (America/St_Johns
+// 2007-11-04 00:01 -> 23:01), not even an interval.
+func transitionDay(tz *time.Location, d day) bool {
+	mid := time.Date(d.Y, time.Month(d.M), d.D, 0, 0, 0, 0, tz)
+	if localDay(tz, mid) != d {
+		return true
+	}
+	_, off := mid.Zone()
+	for m := -180; m <= 27*60; m++ {
+		if _, o := mid.Add(time.Duration(m) * time.Minute).Zone(); o != off {
+			return true
+		}
+	}
+	return false
+}
+
 func localDay(tz *time.Location, t time.Time) day {
 	y, m, d := t.In(tz).Date()
 	return day{y, int(m), d}
@@ -1108,6 +1127,19 @@ func main() {
 				}
 				outs = append(outs, w.runTree(res, spec, ci, cs, c, t))
 			}
+			// multi-valued properties: `!=` must hold for ALL values, `=` for ANY (correspondence; the statement has no
+			// sentence of its own about them)
+			if len(cs.URNs) >= 2 {
+				for ui, u := range cs.URNs {
+					if ui >= 2 {
+						break
+					}
+					scheme, path, _ := strings.Cut(u, ":")
+					outs = append(outs, w.runTree(res, spec, ci, cs, c, &qnode{PT: "attr", Key: "urn", Op: "!=", Value: path}))
+					outs = append(outs, w.runTree(res, spec, ci, cs, c, &qnode{Bool: "or", Children: []*qnode{
+						{PT: "urn", Key: scheme, Op: "!=", Value: path}, {PT: "urn", Key: scheme, Op: "=", Value: strings.ToUpper(path)}}}))
+				}
+			}
 			w.audit(res, spec, ci, cs, c, rw.Fork(fmt.Sprintf("audit%d", ci)))
 		}
 		for ci, c := range w.contacts {
@@ -1353,8 +1385,7 @@ func (w *world) audit(res *hx.Result, spec *worldSpec, ci int, cs *contactSpec, 
 				cmp := cmpDay(localDay(w.tz, *t), *v.d)
 				if lt != (cmp < 0) || eq != (cmp == 0) || gt != (cmp > 0) {
 					class := "date-comparison:calendar-day"
-					startsOn := localDay(w.tz, time.Date(v.d.Y, time.Month(v.d.M), v.d.D, 0, 0, 0, 0, w.tz))
-					if dayLen(w.tz, *v.d) != 24*time.Hour || startsOn != *v.d {
+					if transitionDay(w.tz, *v.d) {
 						class = "date-comparison:dst-transition-day"
 					}
 					res.Fail(class, fi(p, "=", v.text, fmt.Sprintf("value %s = %s local", t.Format(time.RFC3339Nano), t.In(w.tz).Format(time.RFC3339Nano))),
